@@ -44,6 +44,8 @@ pub struct SvcConfig {
     pub local_record_size: Option<usize>,
     /// advertise (and listen on) this IPv4 UDP port instead of the default one
     pub local_port4: Option<u16>,
+    /// the local record advertises no IP address / UDP port at all (the node still listens)
+    pub local_no_socket: bool,
 }
 
 impl Default for SvcConfig {
@@ -65,6 +67,7 @@ impl Default for SvcConfig {
             from_sockets: false,
             local_record_size: None,
             local_port4: None,
+            local_no_socket: false,
         }
     }
 }
@@ -206,6 +209,10 @@ impl Svc {
                     ListenConfig::DualStack { ipv4: ip4, ipv4_port: p4, ipv6: ip6, ipv6_port: p6 }
                 }
             };
+            if cfg.local_no_socket {
+                b = Enr::builder();
+                b.seq(cfg.local_seq);
+            }
             let mut e = b.build(&key).expect("local record");
             if let Some(target) = cfg.local_record_size {
                 // grow a custom field until the record has exactly the wanted size (if reachable)
